@@ -125,19 +125,20 @@ def logViaMethod (lib : Str → Frame) (m : MethodRow) (opts : List Int) (us : L
     Except Err Record :=
   logCore (stackAtLog lib m.chain us) (m.opts.eval 1 opts) ex
 
-/-- `Catcher.__exit__`: `_, depth, _, *options = logger._options`, the decorator adjustment,
+/-- `Catcher.__exit__`: `_, depth, _, *options = logger._options`, the decorator adjustment and the
+`_frames` adjustment (`async with`: `__aexit__` calls `__exit__` with `_frames=1`),
 `catch_options = [exc, depth, True, *options]`, then `_log`.  Slot 0 and 2 are overwritten. -/
 def catchUnpackDepthIdx : Option Nat := Gen.catchUnpackPrefix.idxOf? "depth".toList
 def catchRepackDepthIdx : Option Nat := Gen.catchRepackPrefix.idxOf? "depth".toList
 
-def catchOptions (fromDecorator : Bool) (opts : List Int) : Except Err (List Int) :=
+def catchOptions (fromDecorator : Bool) (frames : Int) (opts : List Int) : Except Err (List Int) :=
   let n := Gen.catchUnpackPrefix.length
   if opts.length < n then .error .valueError else
   match catchUnpackDepthIdx, catchRepackDepthIdx with
   | some i, some j =>
     match opts[i]? with
     | some d =>
-      let d' := Gen.catchDepth fromDecorator d
+      let d' := Gen.catchDepth fromDecorator frames d
       .ok ((List.range Gen.catchRepackPrefix.length).map (fun k => if k = j then d' else 1) ++ opts.drop n)
     | none => .error .valueError
   | _, _ => .error .other
@@ -145,8 +146,26 @@ def catchOptions (fromDecorator : Bool) (opts : List Int) : Except Err (List Int
 /-- A record produced by `catch()` (decorator shapes, `with`, `async with`). -/
 def logViaCatch (lib : Str → Frame) (w : CatchRow) (opts : List Int) (us : List Frame) (ex : Exec) :
     Except Err Record :=
-  match catchOptions w.fromDecorator opts with
+  match catchOptions w.fromDecorator w.frames opts with
   | .error e => .error e
   | .ok o => logCore (stackAtLog lib w.chain us) o ex
+
+/-! ### `get_frame_fallback` (interpreters without `sys._getframe`) -/
+
+/-- the loop `for _ in range(n): [if frame is None: break]; frame = frame.f_back` on the chain of
+`f_back` links: the state is the remaining stack (its head is `frame`, `[]` is `None`);
+`None.f_back` is an AttributeError -/
+def fallbackWalk (breaks : Bool) : Nat → List Frame → Except Err (List Frame)
+  | 0, st => .ok st
+  | _ + 1, [] => if breaks then .ok [] else .error .attributeError
+  | n + 1, _ :: rest => fallbackWalk breaks n rest
+
+/-- `get_frame_fallback(n)` seen from its caller (`stack` = the caller's stack, like `sys._getframe`);
+`.ok none` = the function returns `None` -/
+def getFrameFallback (stack : List Frame) (n : Nat) : Except Err (Option Frame) :=
+  match fallbackWalk Gen.fallbackBreaksOnNone n stack with
+  | .error e => .error e
+  | .ok [] => if Gen.fallbackRaisesOnNone then .error .valueError else .ok none
+  | .ok (f :: _) => .ok (some f)
 
 end Frames
